@@ -186,6 +186,20 @@ def gen_inproc(ctx):
             if kinds[0] != "L":
                 continue                                   # everything before the first launch is a no-op
             cases.append(("exh", render_kinds(list(kinds) + ["J", "R"])))
+    # every finishing permutation of a job set, split at every point into "finished before the wait" (with and
+    # without a poll in between) and "finishes during the wait"
+    for nj in range(1, ctx.size(5, 6) + 1):
+        for perm in itertools.permutations(range(1, nj + 1)):
+            for k in range(nj + 1):
+                for polled in (False, True):
+                    if polled and k == 0:
+                        continue
+                    ops = ["L" + FORMS[(i + nj) % len(FORMS)] for i in range(nj)]
+                    ops += ["F%d" % t for t in perm[:k]]
+                    if polled:
+                        ops += ["P", "J"]
+                    ops += ["W" + ",".join(map(str, perm[k:])), "J"]
+                    cases.append(("perm", ops))
     rng = ctx.rng
     allk = ["L", "L", "L", "Fo", "Fn", "Fr", "Fr", "P", "P", "Wp", "Wf", "Sc", "Sp", "S1", "S2", "S3", "S9", "G", "R", "J"]
     for _ in range(ctx.size(4000, 60000)):
@@ -227,8 +241,10 @@ def run_inproc(ctx):
         ctx.count(tuple(ops), nontrivial=nl >= 2 or len(ops) >= 4, bucket=kind)
         ctx.bucket("jobs_%d" % min(nl, 9))
         ctx.impl_validated += 1
-        if b == "<harness-died>" or "PANIC" in b:
-            ctx.violation("harness/brush died on an op sequence", {"ops": ops, "brush": b})
+        if b == "<harness-died>" or b.startswith("PANIC"):
+            if nviol < 20:
+                nviol += 1
+                ctx.violation("brush's job code panicked / the harness died on an op sequence", {"ops": ops, "brush": b})
             continue
         body = b.partition(" || ")[0]
         fails = direct_check(ops, b)
@@ -261,7 +277,7 @@ def run_inproc(ctx):
                 ctx.known_or_violation(CLAUSE_DUP, why, case)
             elif nviol < 20:
                 nviol += 1
-                ctx.violation(why + " (inside the proved domain: model and theorem disagree?)", case)
+                ctx.violation(why + " (the job table itself behaves as modelled)", case)
     if nfixed:
         ctx.notes.append("finding_not_reproduced: on %d op sequences brush numbers jobs as max live id + 1 (the repaired rule), "
                          "not len + 1; set ID_RULE = 'max' in tools/c17.py and mark %s fixed" % (nfixed, CLAUSE_DUP))
@@ -538,6 +554,8 @@ def run(ctx):
     run_e2e(ctx)
     ctx.cov["rule"] = ("in-process: exhaustive op sequences (launch / complete oldest / complete newest / poll / wait with "
                        "forward and reverse completion schedules / wait %1 / wait %-) up to length " + str(ctx.size(6, 7)) +
+                       ", every finishing permutation of 1-" + str(ctx.size(5, 6)) + " jobs split at every point into before/during the wait"
+                       " (with and without a poll)" +
                        ", seeded random sequences to length 40 with up to 8+ jobs in 7 syntactic launch forms, random completion "
                        "permutations, blocking waits; each compared step by step with the Lean JobManager model and checked "
                        "against the predicates (distinct live ids, wait returns only when all finished, exactly one start/end per "
@@ -562,9 +580,15 @@ def replay(ctx, rp):
         print("ops:   ", line)
         print("brush: ", b[0] if b else "<none>")
         print("model: ", m[0])
+        m2 = lib.run_drv(["C17 max " + line])
         fails = direct_check(case["ops"], b[0]) if b else [(None, "harness died", 0)]
         print("property on brush:", "; ".join(f[1] for f in fails) or "holds")
-        return 1 if (fails or (b and b[0].partition(" || ")[0] != m[0])) else 0
+        body = b[0].partition(" || ")[0] if b else ""
+        recorded = [f for f in fails if f[0] in ctx.known and body == m[0]]
+        if recorded:
+            print("(recorded finding %s: brush behaves as the model of the code says)" % recorded[0][0])
+        other = [f for f in fails if f not in recorded]
+        return 1 if (other or (b and body not in (m[0], m2[0]))) else 0
     if "lines" in case:
         bad = 0
         for _ in range(3):
@@ -574,7 +598,7 @@ def replay(ctx, rp):
             print("brush:\n" + rb["out"])
             print("bash:\n" + ro["out"])
             print("property on brush:", "; ".join(f[1] for f in fails) or "holds")
-            if fails:
+            if any(not (f[0] in ctx.known and case["mode"] == "stdin") for f in fails):
                 bad = 1
                 break
         return bad
